@@ -110,6 +110,7 @@ inductive Atom where
   | npFloat (bits : Nat) (f : F)
   | npComplex (bits : Nat) (re im : F)
   | npArr (id : Nat)                       -- an ndarray with ≥ 2 elements: unhashable, `==` has no truth value
+  | ndarray (dtype : Nat) (shape : List Nat) -- an ndarray known by dtype code and shape (size ≠ 1), same behaviour
   | idx (r : PR Int)                       -- object whose type defines only `__index__`
   | flt (r : PR F)                         -- … only `__float__`
   | cpx (r : PR (F × F))                   -- … only `__complex__`
@@ -251,7 +252,7 @@ def callable : Val → Bool
 mutual
 /-- `hash(v)` succeeds. -/
 def hashable : Val → Bool
-  | .atom (.npArr _) | .atom (.badEq _) | .atom (.dict _) => false
+  | .atom (.npArr _) | .atom (.ndarray _ _) | .atom (.badEq _) | .atom (.dict _) => false
   | .atom _ => true
   | .tuple _ vs => hashableL vs
   | .list _ => false
@@ -322,6 +323,7 @@ to double. -/
 def Atom.pyEq (a b : Atom) : Tri :=
   match a, b with
   | .npArr _, _ | _, .npArr _ => .raises .valueError
+  | .ndarray _ _, _ | _, .ndarray _ _ => .raises .valueError
   | .badEq _, _ | _, .badEq _ => .raises .valueError
   | _, _ =>
     if a.isNp || b.isNp then
@@ -371,6 +373,7 @@ def Val.pyEq : Val → Val → Tri
   | .tuple _ vs, .tuple _ ws => Val.pyEqL vs ws
   | .list vs, .list ws => Val.pyEqL vs ws
   | .atom (.npArr _), _ | _, .atom (.npArr _) => .raises .valueError
+  | .atom (.ndarray _ _), _ | _, .atom (.ndarray _ _) => .raises .valueError
   | .atom (.badEq _), _ | _, .atom (.badEq _) => .raises .valueError
   | .atom a, .tuple _ ws => if a.isNp then npSeq a ws else .no
   | .atom a, .list ws => if a.isNp then npSeq a ws else .no
